@@ -138,6 +138,7 @@ class ForceBias(SingleDriver):
         attributes = dictionary.setdefault("attributes", {})
         attributes["masses_scaling_power"] = self.masses_scaling_power
         attributes["shaped_masses"] = self.shaped_masses
+        attributes["gamma_max_value"] = self.gamma_max_value
 
         return dictionary
 
